@@ -138,18 +138,12 @@ Local Notation needed := (needed Hc).
 Local Notation usable_in := (usable_in Hc).
 
 (** B is a valid file: every chunk's stored bytes have the stored length and pass
-    [validate_chunk]; the data digest is the overall checksum of the data section; a first
-    entry with uncompressed length 0 (the empty dictionary) has no stored bytes. *)
+    [validate_chunk] (so the index digest of a zero-length chunk is all zeros); the data
+    digest is the overall checksum of the data section. *)
 Definition srv_ok (s : slot) : Prop := chunk_ok (s_chunk s) (s_srv s) = true.
-Definition first_ok (first : bool) (sl : list slot) : Prop :=
-  first = true -> match sl with
-                  | s :: _ => c_ulen (s_chunk s) = 0 -> c_clen (s_chunk s) = 0
-                  | [] => True
-                  end.
 Definition wf_new (B : newfile) (sl : list slot) : Prop :=
   Forall srv_ok sl /\
-  (b_uncomp B = false -> Hf (concat (map s_srv sl)) = b_ddigest B) /\
-  first_ok true sl.
+  (b_uncomp B = false -> Hf (concat (map s_srv sl)) = b_ddigest B).
 
 (** the target is a file: an extent never holds more bytes than its length *)
 Definition fits (s : slot) : Prop := len (s_cur s) <= c_clen (s_chunk s).
@@ -207,12 +201,6 @@ Proof.
   inversion Hs; subst. constructor; [assumption | apply IH; assumption].
 Qed.
 
-Lemma write_prefix_first p sl : first_ok true sl -> first_ok true (write_prefix p sl).
-Proof.
-  unfold first_ok. intros H E. specialize (H E). destruct sl as [|s sl]; [exact I|].
-  cbn [write_prefix]. destruct (p =? 0); exact H.
-Qed.
-
 (** an extent that already holds B's bytes still holds them after the probe *)
 Lemma write_prefix_keeps : forall sl p i s,
   nth_error sl i = Some s -> s_cur s = s_srv s ->
@@ -242,32 +230,41 @@ Proof.
   cbn [Update.scan_flags map set_flag s_cur]. f_equal. apply IH.
 Qed.
 
+(** a zero-length extent of a valid B always passes the test *)
+Lemma zero_len_ok s : srv_ok s -> fits s -> c_clen (s_chunk s) = 0 -> chunk_ok (s_chunk s) (s_cur s) = true.
+Proof.
+  intros Hs Hfit Z. unfold fits in Hfit. rewrite Z in Hfit.
+  assert (s_cur s = []) as E by (apply len_zero_nil; lia).
+  apply chunk_ok_split in Hs. destruct Hs as [_ D].
+  apply chunk_ok_split. rewrite E. split; [rewrite Z; reflexivity|].
+  unfold Update.digest_ok in *. rewrite Z in *. cbn [N.eqb] in *. exact D.
+Qed.
+
 Lemma scan_flag_valid first s :
-  (first = true -> c_ulen (s_chunk s) = 0 -> c_clen (s_chunk s) = 0) ->
   srv_ok s -> fits s -> scan_flag first s = Valid -> chunk_ok (s_chunk s) (s_cur s) = true.
 Proof.
-  intros F Hs Hfit. unfold Update.scan_flag, skipped.
-  destruct first; cbn [andb].
-  - destruct (c_ulen (s_chunk s) =? 0) eqn:U.
-    + intros _. apply N.eqb_eq in U. specialize (F eq_refl U).
-      unfold fits in Hfit. rewrite F in Hfit.
-      assert (s_cur s = []) as E by (apply len_zero_nil; lia).
-      apply chunk_ok_split in Hs. destruct Hs as [_ D].
-      apply chunk_ok_split. rewrite E. split; [rewrite F; reflexivity|].
-      unfold Update.digest_ok in *. rewrite F in *. cbn [N.eqb] in *. exact D.
-    + destruct (chunk_ok _ _); [reflexivity | discriminate].
+  intros Hs Hfit. unfold Update.scan_flag. destruct (skipped first (s_chunk s)) eqn:K.
+  - intros _. unfold skipped in K. apply andb_true_iff in K. destruct K as [_ K]. apply N.eqb_eq in K.
+    apply zero_len_ok; assumption.
   - destruct (chunk_ok _ _); [reflexivity | discriminate].
 Qed.
 
-Lemma scan_flags_good : forall sl first,
-  first_ok first sl -> Forall srv_ok sl -> Forall fits sl -> Forall good (scan_flags first sl).
+Lemma scan_flag_zero first s :
+  srv_ok s -> fits s -> c_clen (s_chunk s) = 0 -> scan_flag first s = Valid.
 Proof.
-  induction sl as [|s sl IH]; intros first F Hs Hfit; [constructor|].
+  intros Hs Hfit Z. unfold Update.scan_flag. destruct (skipped _ _); [reflexivity|].
+  rewrite (zero_len_ok s Hs Hfit Z). reflexivity.
+Qed.
+
+Lemma scan_flags_good : forall sl first,
+  Forall srv_ok sl -> Forall fits sl -> Forall good (scan_flags first sl).
+Proof.
+  induction sl as [|s sl IH]; intros first Hs Hfit; [constructor|].
   inversion Hs; subst. inversion Hfit; subst.
   cbn [Update.scan_flags]. constructor.
   - split; [assumption|]. cbn [set_flag s_flag s_chunk s_cur].
-    apply scan_flag_valid; try assumption.
-  - apply IH; try assumption. intros E. discriminate.
+    apply scan_flag_valid; assumption.
+  - apply IH; assumption.
 Qed.
 
 Lemma all_valid_spec sl : all_valid sl = true <-> Forall (fun s => s_flag s = Valid) sl.
@@ -296,9 +293,9 @@ Proof.
 Qed.
 
 Lemma find_valid_good B sl :
-  first_ok true sl -> Forall srv_ok sl -> Forall fits sl -> Forall good (snd (find_valid B sl)).
+  Forall srv_ok sl -> Forall fits sl -> Forall good (snd (find_valid B sl)).
 Proof.
-  intros F Hs Hfit. pose proof (scan_flags_good sl true F Hs Hfit) as G.
+  intros Hs Hfit. pose proof (scan_flags_good sl true Hs Hfit) as G.
   unfold Update.find_valid.
   destruct (all_valid _); [destruct (b_uncomp B); [|destruct (bytes_eqb _ _)]|]; cbn [snd]; try exact G.
   apply Forall_forall. intros s Hin. apply in_map_iff in Hin. destruct Hin as [s0 [<- Hin]].
@@ -316,16 +313,16 @@ Qed.
 
 (** the data hashed by the scan is the whole data section when the target holds B *)
 Lemma scanned_data_eq : forall sl first,
-  first_ok first sl -> Forall srv_ok sl -> map s_cur sl = map s_srv sl ->
+  Forall srv_ok sl -> map s_cur sl = map s_srv sl ->
   scanned_data first sl = concat (map s_srv sl).
 Proof.
-  induction sl as [|s sl IH]; intros first F Hs E; [reflexivity|].
+  induction sl as [|s sl IH]; intros first Hs E; [reflexivity|].
   inversion Hs as [|? ? H1 H2]; subst. cbn [map] in E. inversion E as [[E1 E2]].
-  cbn [scanned_data map concat]. rewrite (IH false) by (try assumption; intros X; discriminate).
-  f_equal. unfold skipped. destruct first; cbn [andb]; [|exact E1].
-  destruct (c_ulen (s_chunk s) =? 0) eqn:U; [|exact E1].
-  apply N.eqb_eq in U. specialize (F eq_refl U). apply chunk_ok_split in H1. destruct H1 as [L _].
-  rewrite F in L. symmetry. apply len_zero_nil. exact L.
+  cbn [scanned_data map concat]. rewrite (IH false) by assumption.
+  f_equal. destruct (skipped first (s_chunk s)) eqn:K; [|exact E1].
+  unfold skipped in K. apply andb_true_iff in K. destruct K as [_ K]. apply N.eqb_eq in K.
+  apply chunk_ok_split in H1. destruct H1 as [L _].
+  rewrite K in L. symmetry. apply len_zero_nil. exact L.
 Qed.
 
 (** all chunks individually valid but the data digest differs: two different byte strings
@@ -335,15 +332,15 @@ Lemma find_valid_mismatch_collision B sl :
   all_valid (scan_flags true sl) = true -> b_uncomp B = false ->
   bytes_eqb (Hf (scanned_data true sl)) (b_ddigest B) = false -> collision.
 Proof.
-  intros [Hs [Hd F]] Hfit A U M.
-  pose proof (scan_flags_good sl true F Hs Hfit) as G.
+  intros [Hs Hd] Hfit A U M.
+  pose proof (scan_flags_good sl true Hs Hfit) as G.
   apply all_valid_spec in A.
   destruct (good_eq_or_collision _ G A) as [E|C]; [|exact C].
   rewrite scan_flags_cur in E.
   assert (map s_srv (scan_flags true sl) = map s_srv sl) as E2.
   { pose proof (scan_flags_shape sl true) as S. unfold shape in S.
     apply (f_equal (map snd)) in S. rewrite !map_map in S. exact S. }
-  rewrite E2 in E. rewrite (scanned_data_eq sl true F Hs E), (Hd U), bytes_eqb_refl in M. discriminate.
+  rewrite E2 in E. rewrite (scanned_data_eq sl true Hs E), (Hd U), bytes_eqb_refl in M. discriminate.
 Qed.
 
 (* ---------------------------------------------------------------------------------- *)
@@ -665,11 +662,8 @@ Qed.
 
 Lemma wf_new_shape B sl sl' : shape sl' = shape sl -> wf_new B sl -> wf_new B sl'.
 Proof.
-  intros E [H1 [H2 H3]]. split; [eapply srv_ok_shape; eassumption|]. split.
-  - rewrite shape_srv, E, <- shape_srv. exact H2.
-  - unfold first_ok in *. intros X. specialize (H3 X).
-    destruct sl as [|s sl], sl' as [|s' sl']; try discriminate; [exact I|].
-    unfold shape in E. cbn [map] in E. inversion E as [[E1 E2 E3]]. rewrite E1. exact H3.
+  intros E [H1 H2]. split; [eapply srv_ok_shape; eassumption|].
+  rewrite shape_srv, E, <- shape_srv. exact H2.
 Qed.
 
 (* ---------------------------------------------------------------------------------- *)
@@ -717,9 +711,9 @@ Qed.
 Lemma validate_data_true B sl :
   wf_new B sl -> map s_cur sl = map s_srv sl -> fst (validate_data B sl) = true.
 Proof.
-  intros [Hs [Hd F]] E.
+  intros [Hs Hd] E.
   assert (Forall (fun s => chunk_ok (s_chunk s) (s_cur s) = true) sl) as C.
-  { clear Hd F. induction sl as [|s sl IH]; [constructor|].
+  { clear Hd. induction sl as [|s sl IH]; [constructor|].
     inversion Hs; subst. cbn [map] in E. inversion E as [[E1 E2]].
     constructor; [rewrite E1; assumption | apply IH; assumption]. }
   unfold Update.validate_data. destruct (b_uncomp B) eqn:U.
